@@ -7,9 +7,9 @@ props = [json.loads(l) for l in open(os.path.join(V, "properties.jsonl"))]
 LEVEL = {
  "C01": ("DESIGN.md §5 C01", "Seeded search over fault sequences (crash with power-loss/kill images, partitions, coordinator crashes, stream breaks, message loss, node swaps, lock-site yields, and a directed schedule that cuts freshly installed leaders off from their peers) on a real cluster; containment of every acknowledged write in every later leader's log, final state == reference fold, replica agreement."),
  "C02": ("DESIGN.md §5 C02", "Same engine with read-heavy concurrent clients on few keys; the recorded invoke/return history (global event stamps, unique values) of each shard is checked with porcupine against a sequential map model, with unknown-outcome writes left pending and the property's deposed-leader clause applied to reads; some reads are sent by clients with an old view of the assignments, also right while a node is becoming leader; plus version-id consistency of all observations."),
- "C03": ("DESIGN.md §5 C03", "Same engine with replication-heavy schedules; every Ack on the wire is checked at the first quiescent point after it was sent against the follower's synced log and the leader's log; a shard-wide ledger of what any node applied as committed (or a quorum acknowledged) is compared with every newly installed leader's log and with everything applied afterwards; pairwise prefix agreement and byte-identical state after healing."),
+ "C03": ("DESIGN.md §5 C03", "Same engine with replication-heavy schedules; every Ack on the wire is checked at the first quiescent point after it was sent against the follower's synced log and the leader's log; a shard-wide ledger of what any node applied as committed (or a quorum acknowledged) is compared with every newly installed leader's log and with everything applied afterwards (a leader's DB offset included); the first node to apply an entry no quorum was seen to acknowledge must find it with a majority; pairwise prefix agreement and byte-identical state after healing."),
  "C04": ("DESIGN.md §5 C04", "Same engine with trigger-placed NewTerm requests (held until the target node is in the middle of an operation) and elections forced over a live busy leader; reported head vs. real log end, log frozen after the fence, no ack in older terms."),
- "C05": ("DESIGN.md §5 C05", "Same engine, election-heavy (coordinator crashes, muted leaders, node swaps); monitors on metadata stores and coordination RPCs for durable-before-send, monotonic terms, one leader per term, fenced majority and best in-ensemble head."),
+ "C05": ("DESIGN.md §5 C05", "Same engine, election-heavy (coordinator crashes, muted leaders, node swaps, in some runs a term that cannot be stored at a node); monitors on metadata stores and coordination RPCs for durable-before-send, monotonic terms, one leader per term, fenced majority and best in-ensemble head."),
  "C06": ("DESIGN.md §5 C06", "Seeded search over write programs on three real nodes (harness as coordinator) with schedules that split application across routes: live on the leader, follower replay, graceful and crash restarts, leader changes right after pipelined bursts, snapshot installation with random chunk sizes; every replica's DB dump compared with the reference model folded to that replica's commit offset, and replicas at equal offsets byte-wise."),
  "C07": ("DESIGN.md §5 C07", "Seeded search over crash instants (inside concurrent bursts and between operations, leader and followers, power loss or kill) with the Pebble engine on a strict in-memory file system and injected engine flushes; after every restart the DB dump is compared, before any replay, with the reference model folded over entries 0..c of the log (c = stored commit offset, never beyond the node's log), and after replay with the fold to the new offset; a leader that is cut off with a tail only it holds must not apply it when asked to lead again."),
  "C08": ("DESIGN.md §5 C08", "Seeded search over schedules (lock-site yields, latencies, ack order, stream sends that return late) of concurrent writers on a fault-free real 3-node cluster with the real coordinator; wire-level and end-of-run invariants on offsets, responses, apply order and the commit offset."),
@@ -21,9 +21,9 @@ LEVEL = {
  "C14": ("DESIGN.md §5 C14", "Seeded search over interleavings of session owners (heartbeats, ephemeral puts, close / silence / late writers), other writers on the same keys and leader changes (graceful and crash restarts) against a real node with real session timers on the simulated clock; the committed log is folded into the reference model and every session-ending entry is audited for 'exactly the owned records', plus timing oracles for early expiry, missing expiry and sessions unknown to a settled leader."),
  "C15": ("DESIGN.md §5 C15", "Seeded search over programs touching three adjacent secondary indexes on a real node; index queries of every kind and the index entries in DB dumps compared with a sorted per-index reference."),
  "C16": ("DESIGN.md §5 C16", "Seeded search over sequence-put programs (multi-put batches, deletes of the maximum, plain puts into the suffix space) with scheduled subscribers on a real node; key arithmetic model plus bounded-liveness check of subscribers."),
- "C17": ("DESIGN.md §5 C17", "Seeded search over write histories with notification subscribers that start, disconnect and resume (also across a restart and new term) on a real node, including a write that commits while a trimming round is in progress; streams compared per offset with batches derived by the reference model from the committed log."),
+ "C17": ("DESIGN.md §5 C17", "Seeded search over write histories with notification subscribers that start, disconnect and resume (also across a restart and new term) on a real node, including a write that commits while a trimming round is in progress and subscriptions opened while a burst of writes commits; streams compared per offset with batches derived by the reference model from the committed log."),
  "C18": ("DESIGN.md §5 C18", "Seeded search over histories of cluster-config changes (namespaces added, removed, re-created at once with another shard count; servers added/removed, also while unreachable; coordinator crashes, also on a status without namespaces; changes arriving back to back) against the real coordinator, real nodes and real client-library shard managers on the simulated transport; every stored status and every assignment message must partition the hash space, shard ids must never be reused, and settled clients must route sampled keys like the published map."),
- "C19": ("DESIGN.md §5 C19", "Same config-history engine with labelled servers and namespaces carrying zero to two strict anti-affinity rules; every new or changed ensemble in every stored status is checked for size, distinctness, membership in the cluster configuration, anti-affinity among configured members, and one-member-at-a-time replacement (the real balancer and selectors make the choices)."),
+ "C19": ("DESIGN.md §5 C19", "Same config-history engine with labelled servers and namespaces carrying zero to two strict anti-affinity rules (labels nested or crossing); every new or changed ensemble in every stored status is checked for size, distinctness, membership in the cluster configuration, anti-affinity among configured members, and one-member-at-a-time replacement (the real balancer and selectors make the choices)."),
  "C20": ("DESIGN.md §5 C20", "Seeded search over batching knobs (linger, max requests per batch, request timeout), response chunking, delays and server-side failure placements with the real client library (oxia.NewAsyncClient) on the simulated clock and transport against scripted shard servers; every operation has a result that does not depend on interleaving, so exactly-once completion and 'the result of that very operation' are checked per call, and multi-shard list/scan/comparison-get against a sorted reference."),
 }
 NOTE = "Trusted base: the simulator (seeded go1.26.8 runtime overlay, synctest bubble clock, simsync mutexes, simulated gRPC transport, disk-durability tracker), the reference model and the oracle code under /verif/sim; Pebble and protobuf are run, not modelled. Findings are relative to the explored seeds/programs."
